@@ -250,6 +250,7 @@ class Ctx:
                     'correspondences': {}}
         self.assumptions = []
         self._distinct = set()
+        self._auto_samples = []
         self.known = [k for k in load_known() if k.get('property') == pid or pid in k.get('properties', [])]
         self.broken = []   # names of proofs / correspondences that no longer check
 
@@ -260,6 +261,8 @@ class Ctx:
 
     def case(self, canon, nontrivial=True):
         self.cov['evaluations'] += 1
+        if nontrivial and len(self._auto_samples) < 4:
+            self._auto_samples.append(repr(canon)[:600])
         if nontrivial:
             h = hashlib.sha1(repr(canon).encode()).digest()[:8]
             self._distinct.add(h)
@@ -300,6 +303,8 @@ class Ctx:
         os.makedirs(EVID, exist_ok=True)
         os.makedirs(REPLAYS, exist_ok=True)
         self.cov['distinct_nontrivial'] = len(self._distinct)
+        if not self.cov['samples']:
+            self.cov['samples'] = list(self._auto_samples)
         # a broken proof/correspondence with no concrete violation found still is a violation
         if self.broken and not any(v['concrete'] for v in self.violations):
             for b in self.broken:
